@@ -321,6 +321,21 @@ func (c13) Run(t *testing.T, tape *core.Tape, rcx *RunCtx) *core.Result {
 		defer os.Remove(path)
 	}
 
+	// a second, intact file parsed at the same time by another caller: two parses in
+	// one process must not interfere (pooled buffers, package-level state)
+	dual := tape.Chance(10)
+	var recsB, gotB []fasta.Fasta
+	var textB []byte
+	closedB := false
+	if dual {
+		recsB = make([]fasta.Fasta, 1+tape.Draw(6))
+		for i := range recsB {
+			recsB[i] = fasta.Fasta{Name: "b " + c13Name(tape), Sequence: c13Seq(tape, false)}
+		}
+		textB = fasta.Build(recsB)
+		res.Count("probe_two_files_parsed_concurrently", 1)
+	}
+	var rdB *core.SimReader
 	var got []fasta.Fasta
 	var slice []fasta.Fasta
 	var stallTime time.Duration
@@ -336,13 +351,17 @@ func (c13) Run(t *testing.T, tape *core.Tape, rcx *RunCtx) *core.Result {
 		// + 50 per Read call + 200 per delivered record. A correct parser may read far ahead
 		// of its parsing (so the allowance is cumulative), but one that keeps running after
 		// the input has ended cannot stay below a bound that has stopped growing.
-		sim.MaxSteps = 400*len(payload) + 400*(sc.Lines+nrec) + 100000 // backstop only
+		sim.MaxSteps = 400*(len(payload)+len(textB)) + 400*(sc.Lines+nrec+2*len(recsB)) + 100000 // backstop only
 		sim.OnQuiesce = func() string {
 			consumed, reads := len(payload), int64(0)
 			if rd != nil {
 				consumed, reads = rd.Consumed(), rd.Reads
 			}
-			allowed := 20000 + 60*consumed + 50*int(reads) + 200*len(got)
+			if rdB != nil {
+				consumed += rdB.Consumed()
+				reads += rdB.Reads
+			}
+			allowed := 20000 + 60*consumed + 50*int(reads) + 200*(len(got)+len(gotB))
 			if sim.Steps > allowed {
 				return fmt.Sprintf("%d scheduler steps used, %d allowed for %d bytes handed over in %d reads and %d records delivered", sim.Steps, allowed, consumed, reads, len(got))
 			}
@@ -408,6 +427,22 @@ func (c13) Run(t *testing.T, tape *core.Tape, rcx *RunCtx) *core.Result {
 				}
 			})
 		}
+		if dual {
+			chB := make(chan fasta.Fasta, []int{0, 1, 100}[tape.Draw(3)])
+			rdB = core.NewSimReader(sim, tape, textB, nil, len(textB) > 20000)
+			sim.Go(func() { fasta.ParseConcurrent(rdB, chB) })
+			sim.GoConsumer(func() {
+				for {
+					sim.Yield("consumer-b:before-receive")
+					r, ok := <-chB
+					if !ok {
+						closedB = true
+						return
+					}
+					gotB = append(gotB, r)
+				}
+			})
+		}
 		sim.Run()
 	})
 	res.Steps = sim.Steps
@@ -461,6 +496,15 @@ func (c13) Run(t *testing.T, tape *core.Tape, rcx *RunCtx) *core.Result {
 			res.Class, res.Detail = violation("record-count"), fmt.Sprintf("%d records written, %d parsed (%s)", len(recs), len(got), c13FirstDiff(recs, got))
 		} else if d := c13FirstDiff(recs, got); d != "" {
 			res.Class, res.Detail = violation("record-mismatch"), d
+		}
+	}
+	if dual && res.Class == "" {
+		if !closedB {
+			res.Class, res.Detail = violation("concurrent-parse-interference"), fmt.Sprintf("an intact file of %d records parsed at the same time: its channel was never closed (%d records received)", len(recsB), len(gotB))
+		} else if len(gotB) != len(recsB) {
+			res.Class, res.Detail = violation("concurrent-parse-interference"), fmt.Sprintf("an intact file of %d records parsed at the same time delivered %d (%s)", len(recsB), len(gotB), c13FirstDiff(recsB, gotB))
+		} else if d := c13FirstDiff(recsB, gotB); d != "" {
+			res.Class, res.Detail = violation("concurrent-parse-interference"), "intact file parsed at the same time: "+d
 		}
 	}
 	return res
